@@ -10,7 +10,11 @@ _PROVED = [
     "rtsp.BaseInSession.InitWithSdp / SetupWithChannel / HandleInterleavedPacket / handleRtpPacket / handleRtcpPacket (= the UDP callbacks onReadRtpPacket / "
     "onReadRtcpPacket), RrProducer, Rr.Pack, with the timestamp filter (AvPacketQueue) off - insession_total",
     "rtsp.ServerCommandSession.runCmdLoop + handleOptions/Announce/Describe/Setup/Record/Play/Teardown, parseTransport (parseRtpRtcpChannel, parseClientPort), "
-    "readInterleaved, plain and WebSocket, authentication off or challenge path, over requests as nazahttp delivers them - rtsp_session_total",
+    "readInterleaved, plain and WebSocket, authentication off or challenge path, over requests as the header reader delivers them; a second ANNOUNCE / DESCRIBE "
+    "on one connection ends the session - rtsp_session_total",
+    "rtsp.readHttpMessage / readHttpRequestMessage / readHttpResponseMessage (lal's own reader of RTSP requests and responses, pkg/rtsp/http_message.go): every "
+    "Content-Length (absent, not a number, any Go int) against every continuation of the stream: no makeslice panic, body <= maxHttpMsgBodyLength and part of what "
+    "was received - rtsp_msg_total",
     "base.ReadWsPayload (7 / 16 / 64 bit length, mask) - ws_total, ws_bounded (bytes held <= bytes received)",
     "gb28181.PsUnpacker.FeedRtpBody from any state: parsePackHeader, parsePackStreamBody, parsePsm, parseAvStream, readPts, iterateNaluByStartCode, onAvPacketWrap, "
     "avc.IterateNaluStartCode, nazabytes.Buffer (Write/Bytes/Skip as used) - ps_body_total",
@@ -22,8 +26,8 @@ _PROVED = [
 ]
 _FUZZED = [
     "fz.sess: BaseInSession WITH the AvPacketQueue timestamp filter (rtsp/avpacket_queue.go is not modelled)",
-    "fz.rtsp: ServerCommandSession.RunLoop on raw bytes (nazahttp.ReadHttpRequestMessage, auth.go ParseAuthorization / CheckAuthorization with Authorization headers, WebSocket framing of requests)",
-    "fz.rtsp.cl: Content-Length values handed to nazahttp.ReadHttpMessage (open finding C13-naza-content-length)",
+    "fz.rtsp: ServerCommandSession.RunLoop on raw bytes (nazahttp.ReadHttpHeader, auth.go ParseAuthorization / CheckAuthorization with Authorization headers, WebSocket framing of requests)",
+    "fz.rtsp.cl: Content-Length values in a request on the RTSP port, whole session (finding C13-naza-content-length, fixed in lal; the reader alone is modelled: rtsp.msg)",
     "fz.hls: hls.ServerHandler.ServeHTTP on arbitrary paths and queries, sub-session mode on and off",
     "fz.rtmpc: rtmp.PullSession against a stub server (handshake, then arbitrary chunk streams into ClientSession.doMsg...), child process",
     "fz.flvc: httpflv.PullSession (HTTP response, FLV header, ReadTag loop), child process",
@@ -43,8 +47,8 @@ PROP = dict(
         "is validated on every run on the boundary corpus (every truncation, every extreme length field) and the seeded generators, nothing else",
         "Generated/C13.lean: go/ast inventory of index / slice / divide / make / type-assert expressions of the covered functions (sites_covered) and the constants "
         "(consts_agree); Proof/C13Sites.lean attributes each site to a theorem (`proved`) or to the correspondence (`structural`: pattern-matching / pure model)",
-        "nazahttp.ReadHttpRequestMessage, net/http, encoding/json, net/url, net.SplitHostPort, encoding/base64, encoding/hex, bufio, naza connection are not modelled: "
-        "their results are inputs of the models (parsed request, URL parts, codec parameter) or only fuzzed",
+        "nazahttp.ReadHttpHeader / ParseHttpRequestLine (header section of an RTSP message), strconv.Atoi, net/http, encoding/json, net/url, net.SplitHostPort, encoding/base64, encoding/hex, bufio, naza connection are not modelled: "
+        "their results are inputs of the models (parsed request, Content-Length as Atoi returns it, URL parts, codec parameter) or only fuzzed",
         "the harness' rtsp.session op runs a real ServerCommandSession over a connection that hands out one token per Read and drains the session's write queue with a sentinel "
         "before each token (the session closes without flushing); TEARDOWN replies are not compared (they race with the close)",
         "base.cipher (word-wise unmasking) is modelled by its specification payload[i] ^= mask[i%4]; the masking loop's index arithmetic is only tested (masked frames of 0..200 bytes)",
@@ -59,20 +63,20 @@ PROP = dict(
     ],
     assumptions=[
         "Go int is 64 bit; RTP timestamps, SSRCs, sequence numbers are the fixed-width fields of the wire format",
-        "rtsp_session_total: requests are what nazahttp.ReadHttpRequestMessage delivers for a well-formed message; the UDP SETUP path assumes a free port pair",
+        "rtsp_session_total: requests are what lal's readHttpRequestMessage (nazahttp.ReadHttpHeader + rtsp_msg_total's body step) delivers for a well-formed message; the UDP SETUP path assumes a free port pair",
         "rtcp_parse_total needs len(b) >= 28: ParseSr / ParseRtcpHeader themselves still index unchecked (documented precondition); handleRtcpPacket is their only caller in lal",
         "ws_bounded bounds memory by the bytes received, not by a constant: a peer that really sends 1 GiB makes lal hold 1 GiB",
     ],
 )
 
 META = dict(
-    text="PER MODELLED ENTRY POINT (13 entry-point groups, see evidence.coverage.modelled; everything listed under not_modelled is fuzzed only and carries no proof claim). For ALL byte strings / datagram sequences / SDP contexts / clock rates / channel assignments the models of lal's RTP header and Body(), key-frame boundary test, RTCP handling, "
-         "the three RTP unpackers inside RtpUnpackContainer, BaseInSession, the RTSP command loop (plain and WebSocket, interleaved frames), ReadWsPayload, the GB28181 PS "
+    text="PER MODELLED ENTRY POINT (14 entry-point groups, see evidence.coverage.modelled; everything listed under not_modelled is fuzzed only and carries no proof claim). For ALL byte strings / datagram sequences / SDP contexts / clock rates / channel assignments the models of lal's RTP header and Body(), key-frame boundary test, RTCP handling, "
+         "the three RTP unpackers inside RtpUnpackContainer, BaseInSession, the RTSP command loop (plain and WebSocket, interleaved frames), lal's RTSP message reader (Content-Length), ReadWsPayload, the GB28181 PS "
          "demultiplexer and reordering list, and the URL functions end with a value or an error, never with a Go panic (index, slice, divide, nil list head, makeslice); "
          "WebSocket memory is bounded by the bytes received. Proof is the right level: the failures were single extreme field values (padding count 255, AU-headers-length 65535, "
-         "clock rate 500, PES length 2, 64-bit frame length 2^40, a stale list Size after ~1200 datagrams) that replayed captures never contain. Nine defects of the pinned tree "
-         "(each a remote process kill: lal has no recover) were found and fixed through this check; one (negative Content-Length in the naza HTTP reader, RTSP port and RTSP client) "
-         "is recorded as an open finding. Raw-byte RTSP, auth headers, HLS handler and the RTMP / HTTP-FLV / RTSP clients are differentially fuzzed only (no claim beyond the runs); "
+         "clock rate 500, PES length 2, 64-bit frame length 2^40, Content-Length -1, a stale list Size after ~1200 datagrams) that replayed captures never contain. Eleven findings "
+         "of the pinned tree (each a remote process kill: lal has no recover) were found and fixed through this check; the last one (negative Content-Length reaching make() in the naza "
+         "HTTP reader, RTSP port and RTSP client) is repaired inside lal, which now reads RTSP messages with a reader of its own that checks the length first. Raw-byte RTSP, auth headers, HLS handler and the RTMP / HTTP-FLV / RTSP clients are differentially fuzzed only (no claim beyond the runs); "
          "the HTTP API and HTTP-FLV/TS/HLS handlers are fuzzed through a real ServerManager only.",
     design_ref="§7 C13",
     note="Trusted: Lean kernel + 3 standard axioms; the hand-written models (validated on every run against the real functions / a real ServerCommandSession / real client sessions "
